@@ -9,7 +9,7 @@ FUNCTIONS = ['lentil.wavefront.Wavefront.field#1', 'lentil.wavefront.Wavefront.f
              'lentil.plane._mul_pixelscale',
              'lentil.plane.Plane.multiply#arrays', 'lentil.plane.Plane.multiply#scalar-amplitude',
              'lentil.plane.Plane.multiply#scalar-opd', 'lentil.plane.Plane.multiply#two-fields',
-             'lentil.plane.Plane.multiply#two-segments', 'lentil.plane.Plane.multiply#default-plane',
+             'lentil.plane.Plane.multiply#two-segments', 'lentil.plane.Plane.multiply#two-segments-scalars', 'lentil.plane.Plane.multiply#default-plane',
              'lentil.plane.Plane.multiply#default-plane-default-wavefront', 'lentil.plane.Plane.multiply#pupil',
              'lentil.field.insert#array', 'lentil.field.reduce#2', 'lentil.field.reduce#3', 'lentil.helper.slice_offset',
              'lentil.extent.array_extent', 'lentil.extent.intersect', 'lentil.extent.intersection_slices',
